@@ -13,7 +13,7 @@ variable {num : Bytes → Nat} {enc : Encoder} {t₂ : Table}
 
 theorem doAssemble_sim (hinj : Function.Injective num) (henc : EncLen enc) (fs : Bytes → Option Bytes) (inc : Inc)
     (hinc : IncOk inc) (hincg : IncGrew inc) (env : Env) (path : Bytes) (henv : env.paths = [path]) (perr : Option ParseErr) :
-    ∀ (els : List Element) (st stf : St) (l : Layout.State), (∀ el ∈ els, okEl el = true ∧ plainEl el = true) →
+    ∀ (els : List Element) (st stf : St) (l : Layout.State), (∀ el ∈ els, okEl el = true) →
       Sim num enc t₂ st l → doAssemble fs enc inc env els perr st = .ok (stf, .ok) → stf.errors = [] →
       stf.locals = some t₂ →
       ∃ lf, Layout.steps l (abstract num fs enc path t₂ (cursor st) els) = .ok lf ∧ Sim num enc t₂ stf lf := by
@@ -33,13 +33,13 @@ theorem doAssemble_sim (hinj : Function.Injective num) (henc : EncLen enc) (fs :
       have hok' := fun x hx => hok x (List.mem_cons_of_mem _ hx)
       have g1 := (doAssemble_grew hincg perr els st1 stf _ h)
       have herr1 : st1.errors = [] := (grew_nil g1 herr).1
-      have hloc := doAssemble_loc perr els st1 stf _ (fun x hx => (hok' x hx).1) h
+      have hloc := doAssemble_loc perr els st1 stf _ (fun x hx => hok' x hx) h
       have hT : ∀ t', st1.locals = some t' → Table.Sub t' t₂ := by
         intro t' ht'
         obtain ⟨t'', e1, e2⟩ := hloc t' ht'
         rw [hfin] at e1; cases e1; exact e2
       obtain ⟨l1, s1, s2, s3⟩ := statement_sim hinj henc sim fs inc env path henv el
-        (hok el List.mem_cons_self).1 (hok el List.mem_cons_self).2 hs herr1 hT
+        (hok el List.mem_cons_self) hs herr1 hT
       have good1 := ((statement_safe henc hinc sim.good henv' fs el).2 _ _ hs).1
       obtain ⟨lf, f1, f2⟩ := ih st1 stf l1 hok' ⟨good1, s2.r, s2.tbl, s2.tasks, s2.gl⟩ h herr hfin
       refine ⟨lf, ?_, f2⟩
@@ -151,7 +151,7 @@ theorem runTask_sim (henc : EncLen enc) {st st' : St} {l : Layout.State} (ts : T
   cases task with
   | globalCopy n l c => exact hrel.elim
   | instr i g =>
-    obtain ⟨hg, hpl, haddr, hlen, tpl, args, t₁, c, hsub, hnd₁, hplain, hfirst, hdeps, hfinal⟩ := hrel
+    obtain ⟨hg, hpl, haddr, hlen, tpl, args, t₁, c, hsub, hnd₁, hfirst, hdeps, hfinal⟩ := hrel
     subst hg
     obtain ⟨_, hpend⟩ := hok
     simp only [runTask, runInstrTask] at h
@@ -207,7 +207,7 @@ theorem runTask_sim (henc : EncLen enc) {st st' : St} {l : Layout.State} (ts : T
                 obtain ⟨_, hst2⟩ := hw
                 subst hst2
                 -- the retry theorem: the re-run is the fresh run over the final table
-                have hretry := assemble_retry_tables hsub hnd₁ i.st.addr tpl args hplain i.st c hfirst false
+                have hretry := assemble_retry_tables_all hsub hnd₁ i.st.addr tpl args i.st c hfirst false
                 rw [hfa] at hretry
                 have hfresh := assemble_completed_loc true hretry.symm
                 have hfin : lt.final = bytes := by
@@ -230,7 +230,7 @@ theorem runTask_sim (henc : EncLen enc) {st st' : St} {l : Layout.State} (ts : T
                 refine ⟨l', hall, by rw [haddr, hfin]; exact q1,
                   ⟨hsafe.1, q2, ts.loc, ts.nodef, by rw [q3']; exact ts.env, ts.lq, ts.gl⟩, hpend'⟩
   | data d g =>
-    obtain ⟨hg, hpl, haddr, hlen, a, t₁, n, hsub, hnd₁, hplain, hfirst, hdeps, hfinal⟩ := hrel
+    obtain ⟨hg, hpl, haddr, hlen, a, t₁, n, hsub, hnd₁, hfirst, hdeps, hfinal⟩ := hrel
     subst hg
     obtain ⟨_, hpend⟩ := hok
     simp only [runTask, runDataTask] at h
@@ -241,7 +241,7 @@ theorem runTask_sim (henc : EncLen enc) {st st' : St} {l : Layout.State} (ts : T
       rw [hap] at h
       unfold DataExpr.apply at hap
       rw [evalArg_eq henv ts.loc] at hap
-      have hretry := data_retry hsub hnd₁ hplain hfirst
+      have hretry := data_retry_all hsub hnd₁ hfirst
       obtain ⟨ev, hev⟩ := evalIn_ok t₂ d.arg
       rw [hev] at hap
       cases ev with
@@ -429,7 +429,7 @@ computes for the abstraction of the parsed statements over the file's final symb
 symbol table the layout core has built when the last statement has been processed -/
 theorem run_sim {num : Bytes → Nat} (hinj : Function.Injective num) (fs : Bytes → Option Bytes) (main data : Bytes)
     (hfs : fs main = some data) (els : List Element) (perr : Option ParseErr) (hparse : parseFile data = .ok (els, perr))
-    (hok : ∀ el ∈ els, okEl el = true ∧ plainEl el = true) (o : Outcome) (h : run fs main = .done o)
+    (hok : ∀ el ∈ els, okEl el = true) (o : Outcome) (h : run fs main = .done o)
     (hs : o.success = true) :
     ∃ (t₂ : Table) (img : Layout.Img) (lst : Layout.State), Table.NoDef t₂ ∧
       Layout.steps {} (abstract num fs encoder main t₂ none els) = .ok lst ∧ EnvRel num t₂ lst.env ∧
@@ -527,7 +527,7 @@ theorem run_sim {num : Bytes → Nat} (hinj : Function.Injective num) (fs : Byte
                     | err lv => simp at this
                   subst hres3
                   -- the final table
-                  have hloc := doAssemble_loc perr els _ st3 _ (fun x hx => (hok x hx).1) hda
+                  have hloc := doAssemble_loc perr els _ st3 _ (fun x hx => hok x hx) hda
                   obtain ⟨t₂, ht₂, _⟩ := hloc [] rfl
                   obtain ⟨lf, f1, f2⟩ := doAssemble_sim (num := num) (t₂ := t₂) hinj henc fs _ hinc hincg
                     ⟨[main], main⟩ main rfl perr els st2 st3 {} hok (sim_st2 num encoder t₂) hda herr3 ht₂
